@@ -88,8 +88,8 @@ def race_stream(c, tier, seed, replay_case=None):
     if replay_case:
         r = U.drive(exe, "race", ["replay=" + replay_case], env=env, timeout=300)
         return [r]
-    n = 120 if tier == "quick" else 6000
-    reps = 8 if tier == "quick" else 40
+    n = 120 if tier == "quick" else 1200
+    reps = 8 if tier == "quick" else 20
     corpus = U.corpus_jobs()
     if tier == "quick":
         corpus = corpus[seed % 4::4]
@@ -153,7 +153,11 @@ def judge(c, rs):
             fam = all(in_delete_empty_family(x) for x in reps)
             kinds = sorted(set(x["kind"] if x["kind"] == "race" else x["kind"] + ": " + x.get("what", "") for x in reps))
             first = reps[0]["text"]
-            fails.append(dict(case=case, key=key, what="; ".join(kinds), details=first[:3000], family=fam,
+            what = "; ".join(kinds)
+            if fam:
+                what = ("gojq.deleteEmpty writes into a container shared between goroutines "
+                        "(data race / fatal error: concurrent map write)")
+            fails.append(dict(case=case, key=key, what=what, details=first[:3000], family=fam,
                               canon=(info[0] == "canon") if info else False))
         for k, rc, tail in r["crashes"]:
             # a crash whose stderr chunk was attributed above is already recorded; otherwise record it here
@@ -172,6 +176,11 @@ def run(tier, seed):
         "schedules that actually occurred",
         "regexp compilation is a pure function of (pattern, flags): sharing the sync.Map cache cannot change results",
     ]
+    # C06's theorems rest on C05's development, whose site list is regenerated from /repo (a new package-level
+    # map or a new write into a JSON container breaks C05_sites_reviewed and with it these obligations)
+    ok, log = V.regen(["mapsites"])
+    if not ok:
+        c.notes.append("translator failed: " + V.tail(log, 10))
     # the race observer needs no Coq: it runs while the proofs are checked
     box = {}
     th = threading.Thread(target=lambda: box.update(rs=race_stream(c, tier, seed)))
@@ -182,6 +191,21 @@ def run(tier, seed):
     if rs is None:
         return c.finish("none")
     fails, nres, statuses = judge(c, rs)
+    # a runtime fatal error sometimes comes without the writer's stack ("stack unavailable") and before any race
+    # report: such a case is re-run on its own until race reports (which carry both stacks) attribute it
+    for f in fails:
+        if f["family"] or not f["what"].startswith("fatal:") or not f["case"].startswith("c06 mode="):
+            continue
+        for attempt in range(3):
+            rr = race_stream(c, tier, seed, replay_case=f["case"])
+            if not rr:
+                break
+            reps = [x for r in rr for text in r["stderr"].values() for x in split_reports(text)]
+            races = [x for x in reps if x["kind"] == "race"]
+            if races:
+                f["family"] = all(in_delete_empty_family(x) for x in reps if x["kind"] == "race" or x.get("de"))
+                f["details"] += "\n--- re-run for attribution ---\n" + races[0]["text"][:2500]
+                break
     canon_hit = set()
     for f in fails:
         if f.get("canon"):
